@@ -612,7 +612,7 @@ func init() {
 		Level:       "exploration",
 		Race:        true,
 		Env:         []string{"VERIF_YIELD_SEED=20260929"},
-		Rule:        "under the Go race detector (halt_on_error=0, reports attributed to the case by reading the race log after each case and classified by the accessing frames): ingest of 1/2/10/41/200-block tables with worker settings {1,2,3,4,6,10,18} x GOMAXPROCS {1,2,4,16} x yield seeds (verifhook.Yield at the shared-state touch points picks nothing / Gosched / 10-300 us sleep without adding synchronisation) on the mutex-protected memory store and on badger, with real progress bars attached; differ (drained together with a 1 ms progress tracker, single or joined, and stopped after a pause) and merger (2-3 branches, columns asked for right after the first message) on multi-block tables; the real commit/diff/merge commands in-process with default progress bars; every result compared with the unperturbed single-worker run (table id, structural monitor, diff event multiset, merge rows and conflicts); a store error injected at every write position of a 10-block ingest, and of the real binary's commit / merge with default progress bars, must surface as an error and return; hangs are judged by goroutine state, not by time; distinct_nontrivial = distinct (pipeline, workers, blocks, GOMAXPROCS, yield seed) runs",
+		Rule:        "under the Go race detector (halt_on_error=0, reports attributed to the case by reading the race log after each case and classified by the accessing frames): ingest of 1/2/10/41/200-block tables with worker settings {1,2,3,4,6,10,18} x GOMAXPROCS {1,2,4,16} x yield seeds (verifhook.Yield at the shared-state touch points picks nothing / Gosched / 10-300 us sleep without adding synchronisation) on the mutex-protected memory store and on badger, with real progress bars attached; differ (drained together with a 1 ms progress tracker, single or joined, and stopped after a pause) and merger (2-3 branches, columns asked for right after the first message) on multi-block tables; the real commit/diff/merge commands in-process with default progress bars (a real merge whose result is ingested, a diff of two files into the in-memory store); every result compared with the unperturbed single-worker run (table id, structural monitor, diff event multiset, merge rows and conflicts); a store error injected at every write position of a 10-block ingest (with everything in memory and with the sorter merging spill files), and of the real binary's commit / merge with default progress bars, must surface as an error and return; hangs are judged by goroutine state, not by time; distinct_nontrivial = distinct (pipeline, workers, blocks, GOMAXPROCS, yield seed) runs",
 		Assumptions: []string{"schedules are sampled (widened by yields and GOMAXPROCS), not enumerated", "the detector only understands synchronisation it intercepts (wrgl uses channels, sync and atomics only)"},
 		Workers:     6,
 		Gen: func(tier string, seed int64) []fw.Case {
